@@ -1,4 +1,5 @@
 """C13 — reported update amounts are zero exactly when nothing changed."""
+from common import size
 import streams
 from checks._propcommon import op_results, standard_programs
 
@@ -28,7 +29,7 @@ def oracle(rec):
 
 
 def run(rep, tier, seed):
-    n = 300 if tier == "quick" else 6000
+    n = size(tier, 300, 6000)
     progs = standard_programs(seed, n // 2, "interp") + standard_programs(seed + 104729, n - n // 2, "given", crossed_p=0.15)
     progs = streams.corpus_programs("C13") + progs
     # every program ends with two identical passes: the second must report 0 iff nothing moved
